@@ -598,6 +598,15 @@ def UDef.hasPrefixes : UDef → Bool | .item _ _ => false | _ => true
 def UDef.names (d : UDef) : List (List Char) :=
   d.name :: (if d.hasPrefixes then prefixes.map (fun p => p.1 ++ d.name) else [])
 
+/-- `b`'s own name is a prefixed form of `a` (prefixes are single characters) -/
+def clash (a b : UDef) : Bool :=
+  match b.name with
+  | c :: t => a.hasPrefixes && prefixes.any (fun p => p.1 == [c]) && t == a.name
+  | [] => false
+
+/-- executable check behind `unit_names_unambiguous` -/
+def namesOk (defs : List UDef) : Bool := defs.all fun a => defs.all fun b => !clash a b
+
 def defineAll : UTable → List UDef → Except PErr UTable
   | U, [] => .ok U
   | U, .wrap n v :: t => do let U' ← define U n v; defineAll U' t
